@@ -13,7 +13,7 @@ from typing import Any, List, Optional, Tuple
 
 from lib.bounded import BObl
 from bounded._text_models import (strings_upto, norm_spec, is_normal, norm_contract, is_blank,
-                                  class_label, narrow_text, lit_single, lit_double, lit_triple,
+                                  class_label, label_classes, without_label_class, lit_single, lit_double, lit_triple,
                                   exc_line, split_sql_statements, read_sql_literal, sql_text_canon,
                                   innermost_pydbml_function)
 
@@ -268,6 +268,23 @@ def run_site(site: str, t: str) -> Optional[Tuple[str, str]]:
     return None
 
 
+# fixed single-class probe texts (all inside the quick domain); a class "fails at a site" iff one of them does
+PROBE_TEXTS = {
+    'backslash': ['\\', 'a\\a'], 'triple-quote': ["'''"], 'single-quote': ["'", "a'a"], 'newline': ['a\na', '\n'],
+    'double-quote': ['"', 'a"a'], 'backtick': ['`'], 'brace': ['ab{cd', 'ab}cd'], 'bracket': ['ab[cd', 'ab]cd'],
+    'hash': ['ab#cd'], 'comment-marker': ['ab//cd', 'ab/*cd', 'ab*/cd'], 'non-ascii': ['abécd'],
+    'blank': [' '], 'other': ['a', 'a a'],
+}
+_PROBE_MEMO = {}
+
+
+def probe_fails(site: str, cls: str) -> bool:
+    k = (site, cls)
+    if k not in _PROBE_MEMO:
+        _PROBE_MEMO[k] = any(site_domain(site, p) and run_site(site, p) is not None for p in PROBE_TEXTS.get(cls, []))
+    return _PROBE_MEMO[k]
+
+
 class TextSites(BObl):
     id = 'C13.B.sites'
     property = 'C13'
@@ -277,7 +294,8 @@ class TextSites(BObl):
             'is built through the public classes with text T at one of 12 sites, rendered with .dbml and parsed back '
             '(allow_properties=True); the stored text at the site must be T and every other field of view() unchanged. '
             'Note sites take T in normal form only (no outer blank lines, common indentation 0, not blank); '
-            'T non-empty.  A failing T is narrowed class by class; key = <character classes>@<site>')
+            'T non-empty.  Key = <class>@<site>: the first class of T (fixed priority order) whose fixed single-class '
+            'probe text fails at that site; other@<site> if no probe explains the failure')
     bound = ('exhaustive: all T of length <= 3 (quick) / <= 4 (thorough) over {a, space, newline, \', ", \\, `} plus '
              '{ } [ ] # // /* */ é each once inside ab…cd, at 12 sites (quick 12 x 408, thorough 12 x 2 809 before the '
              'normal-form filter)')
@@ -298,21 +316,27 @@ class TextSites(BObl):
 
     def check(self, recipe):
         site, t = recipe
-        memo = {}
-
-        def run(s):
-            if s not in memo:
-                memo[s] = run_site(site, s)
-            return memo[s]
-        r = run(t)
+        r = run_site(site, t)
         if r is None:
             return None
-        small = narrow_text(t, lambda s: run(s) is not None, lambda s: site_domain(site, s))
-        if run(small) is None:  # cannot happen (narrowing only keeps failing texts); stay with the original
-            small = t
-        mode, msg = run(small)
-        return (f'{class_label(small)}@{site}',
-                f'text {small!r} at site {site} (narrowed from {t!r}): {mode}: {msg}')
+        mode, msg = r
+        # the class is decided by fixed single-class probe texts at this site, never by the failing text alone:
+        # a class explains the failure iff it occurs in t and its probe fails on the current tree
+        present = label_classes(t) or ['blank' if t.strip() == '' else 'other']
+        failing = [c for c in present if probe_fails(site, c)]
+        if not failing:
+            return (f'other@{site}', f'text {t!r} at site {site}: {mode}: {msg}; none of the single-class probes of '
+                                     f'its classes {present} fails at this site')
+        rest = t
+        for c in failing:
+            rest = without_label_class(rest, c)
+        if rest != t and site_domain(site, rest):
+            r2 = run_site(site, rest)
+            if r2 is not None:
+                return (f'other@{site}', f'text {t!r} at site {site} still fails with the characters of the failing '
+                                         f'classes {failing} replaced by a ({rest!r}): {r2[0]}: {r2[1]}')
+        return (f'{failing[0]}@{site}', f'text {t!r} at site {site}: {mode}: {msg} (class decided by the probe '
+                                        f'{PROBE_TEXTS[failing[0]]!r})')
 
 
 # =========================================================================== C13.B.sql
@@ -436,10 +460,8 @@ class SqlText(BObl):
         r = run_sql(site, t)
         if r is None:
             return None
-        small = narrow_text(t, lambda s: run_sql(site, s) is not None, lambda s: s != '')
-        r2 = run_sql(site, small) or r
-        mode, msg = r2
-        return (f'{mode}:{class_label(small)}@{site}', f'text {small!r} at {site} (narrowed from {t!r}): {msg}')
+        mode, msg = r
+        return (f'{mode}@{site}', f'text {t!r} at {site}: {msg}')
 
 
 OBLIGATIONS = [NoteNormalisation(), LiteralStyles(), TextSites(), SqlText()]
